@@ -29,6 +29,14 @@ ASSUMPTIONS = [
 ]
 
 
+def _walks(c, beh, num):
+    """TLC's simulator evaluates the leaf invariant on EVERY successor of the last-but-one state, so a walk is printed once per
+    possible last step; keep `num` of them (seeded)."""
+    if not num or len(beh) <= num:
+        return beh
+    return random.Random(c.seed * 7919 + len(beh)).sample(beh, num)
+
+
 # ------------------------------------------------------------------------------------------ IntervalPli
 
 def pli_nontrivial(evs):
@@ -43,6 +51,7 @@ def pli_gen(c, warms, L, periodic, simulate=None):
     base = "Gen_IntervalPli_sim.cfg" if simulate else "Gen_IntervalPli.cfg"
     cfg = vlib.cfg_variant(c, base, {"Warms": "{%s}" % ", ".join(str(w) for w in warms), "L": L, "Periodic": "TRUE" if periodic else "FALSE"})
     beh = vlib.generate(c, "Gen_IntervalPli.tla", cfg, workers=4, simulate=(simulate, L + 1) if simulate else None)
+    beh = _walks(c, beh, simulate)
     return [{"level": "gate" if periodic else "noint", "steps": b} for b in beh]
 
 
@@ -50,7 +59,7 @@ def run_pli(c):
     rng = random.Random(c.seed)
     q = c.quick
     # (M)
-    vlib.model_check(c, "MC_IntervalPli.tla", vlib.cfg_variant(c, "MC_IntervalPli.cfg", {"MaxSteps": 5 if q else 8}), workers=4, timeout=1800)
+    vlib.model_check(c, "MC_IntervalPli.tla", vlib.cfg_variant(c, "MC_IntervalPli.cfg", {"MaxSteps": 6 if q else 8}), workers=4, timeout=1800)
     vlib.model_check(c, "MC_IntervalPli.tla", vlib.cfg_variant(c, "MC_IntervalPli_noint.cfg", {"MaxSteps": 5 if q else 8}), workers=4, timeout=1800)
     vlib.model_check(c, "MC_IntervalPli.tla", "MC_IntervalPli_neg_nounbind.cfg", workers=2,
                      expect_violation="Invariant RegisteredIsSupported is violated",
@@ -58,13 +67,13 @@ def run_pli(c):
     # (G) every sequence of L calls/ticks over three SSRCs from four starting points (0 fresh, 1 loop running, 2 loop running and
     # two streams registered, 3 a request pending before there is a loop); gated ticker and no ticker
     plan = [((0, 3), 3, True), ((0, 1, 3), 2, False)] if q else \
-           [((0, 2), 4, True), ((1, 3), 3, True), ((0,), 4, False), ((2, 3), 3, False)]
+           [((0,), 4, True), ((1, 2, 3), 3, True), ((0, 2, 3), 3, False)]
     scripts = []
     for warms, L, periodic in plan:
         scripts += pli_gen(c, warms, L, periodic)
     # (T) seeded random walks of the generator (long histories)
-    scripts += pli_gen(c, (0, 2, 3), 30 if q else 80, True, simulate=(120 if q else 2500))
-    scripts += pli_gen(c, (1, 3), 30 if q else 80, False, simulate=(40 if q else 800))
+    scripts += pli_gen(c, (0, 2, 3), 30 if q else 80, True, simulate=(300 if q else 2500))
+    scripts += pli_gen(c, (1, 3), 30 if q else 80, False, simulate=(100 if q else 800))
     rng.shuffle(scripts)
     chunk = 60000
     for i in range(0, len(scripts), chunk):
@@ -96,6 +105,7 @@ def dump_gen(c, L, alpha, simulate=None, **sets):
     base = "Gen_PacketDump_sim.cfg" if simulate else "Gen_PacketDump.cfg"
     cfg = vlib.cfg_variant(c, base, consts)
     beh = vlib.generate(c, "Gen_PacketDump.tla", cfg, workers=4, simulate=(simulate, L + 1) if simulate else None)
+    beh = _walks(c, beh, simulate)
     res = []
     for b in beh:
         sc = dict(b["cfg"])
@@ -120,14 +130,15 @@ def run_dump(c):
     if q:
         # every RTP-side configuration x every sequence of 2 steps over singles, bursts and Close
         scripts += dump_gen(c, 2, "small", **rtp_side)
+        scripts += dump_gen(c, 2, "small", RF=("even",), RFMT=("text",), CF=("all", "hasfb"), PF=("none", "fb"), CFMT=("text", "bin", "both"))
     else:
         scripts += dump_gen(c, 3, "small", **rtp_side)
-        scripts += dump_gen(c, 3, "small", **rtcp_side)
+        scripts += dump_gen(c, 3, "small", RF=("all",), RFMT=("bin",), CF=("hasfb",), PF=("none", "fb"), CFMT=FMT4)
         scripts += dump_gen(c, 2, "small", **everything)        # all 2592 configurations
         scripts += dump_gen(c, 2, "full", RF=("even",), RFMT=("both",), CF=("hasfb",), PF=("fb",), CFMT=("both", "text"))
     # (T) seeded random walks over all configurations and the full alphabet
-    scripts += dump_gen(c, 25 if q else 60, "full", simulate=(60 if q else 1500), **everything)
-    scripts += dump_gen(c, 12 if q else 30, "small", simulate=(60 if q else 1500), **everything)
+    scripts += dump_gen(c, 25 if q else 60, "full", simulate=(150 if q else 1500), **everything)
+    scripts += dump_gen(c, 12 if q else 30, "small", simulate=(150 if q else 1500), **everything)
     rng.shuffle(scripts)
     chunk = 60000
     for i in range(0, len(scripts), chunk):
@@ -201,6 +212,52 @@ def run_growth(ctx, only=None):
         print("NOTE: " + n, flush=True)
     ctx.notes += notes
     return notes
+
+
+# ------------------------------------------------------------------------------------------ expectation probes
+
+def _pkt(t, a, b=0, pl=()):
+    return {"t": t, "a": a, "b": b, "pl": list(pl)}
+
+
+def _dump_script(steps, **cfg):
+    sc = {"dir": "s", "rf": "all", "cf": "all", "pf": "all", "rfmt": "text", "cfmt": "text"}
+    sc.update(cfg)
+    sc["steps"] = steps + [{"a": "close", "calls": []}]
+    return sc
+
+
+def _ev(a, s=0, fb=(), ss=()):
+    return {"a": a, "s": s, "fb": list(fb), "ss": list(ss)}
+
+
+PLI_FB = [{"t": "nack", "p": "pli"}]
+PROBES = [
+    # (name, component, what a user would expect, script) - each is validated with the Strict trace configuration
+    ("packetdump-both-formatters", DUMP, "NewInterceptor fails with ErrBothBinaryAndDeprecatedFormat when a text AND a binary RTP formatter are set",
+     _dump_script([{"a": "calls", "calls": [{"a": "rtp", "p": [_pkt("rtp", 96, 1, (1, 2, 3))]}]}], rfmt="both")),
+    ("packetdump-both-rtcp-formatters", DUMP, "NewInterceptor fails with ErrBothBinaryAndDeprecatedFormat when a text AND a binary RTCP formatter are set",
+     _dump_script([{"a": "calls", "calls": [{"a": "rtcp", "p": [_pkt("rr", 1)]}]}], cfmt="both", dir="r")),
+    ("packetdump-rtcp-slice-reuse", DUMP, "an RTCP dump shows the compound as it was when Write was called, also when the caller reuses its slice afterwards",
+     _dump_script([{"a": "calls", "calls": [{"a": "rtcp", "p": [_pkt("pli", 1), _pkt("rr", 2)], "reuse": True}]}], cfmt="bin")),
+    ("intervalpli-unbind-local", PLI, "UnbindLocalStream(ssrc) does not stop the PLIs of the REMOTE stream with the same SSRC",
+     {"level": "gate", "steps": [_ev("bindw"), _ev("bind", 1, PLI_FB), _ev("unbindl", 1), _ev("tick"), _ev("close")]}),
+]
+
+
+def run_probes(ctx):
+    """Hand-written scripts about behaviour a user may not expect, validated with the Strict trace configurations.  Not part of
+    run_growth (the growth specifications follow the code there).  Returns [(name, expectation, diverges, detail)]."""
+    res = []
+    for name, comp, expect, script in PROBES:
+        c = _child(ctx)
+        c.replay_mode = True
+        vlib.run_batch(c, tag="growth-probe-" + name, scripts=[script], go_timeout=300,
+                       trace_cfg=comp["trace_module"].replace(".tla", "_strict.cfg"), **comp)
+        detail = c.violations[0][0] if c.violations else ""
+        res.append((name, expect, bool(c.violations), detail))
+        print("PROBE: %s: expectation '%s': %s" % (name, expect, ("the code DIVERGES: " + detail[:300]) if c.violations else "the code agrees"), flush=True)
+    return res
 
 
 def replay_growth(ctx, path):
